@@ -723,6 +723,11 @@ func (c *fnCtx) composite(x *ast.CompositeLit) string {
 			fs = append(fs, fmt.Sprintf("%s := %s", leanIdent(f.Name()), v))
 		}
 		return "({ " + strings.Join(fs, ", ") + " } : " + c.u.leanType(x, t) + ")"
+	case *types.Array:
+		// `[N]T{}`: the zero value of the array (an array literal with elements stays outside)
+		if len(x.Elts) == 0 {
+			return c.u.zero(x, t)
+		}
 	}
 	c.fail(x, "composite literal of type %s", t)
 	return ""
